@@ -1,14 +1,92 @@
 /* C02 / C03 / C04 — answerHello of lltdBlock.c with the real writers inlined; the transmit oracle decodes the whole Hello. */
 #include "v_harness.h"
 #include "tlv_contracts.h"
+
+/* The call sites of the property writers inside answerHello are redirected (preprocessor rename, nothing else of
+ * lltdBlock.c changes) to ghost-recording wrappers defined below.  A wrapper calls the REAL writer and then
+ *   - checks, right where it was written, that the property is well-formed and carries the configured attribute
+ *     (the same specification functions as the writers' own contracts),
+ *   - checks that properties are laid out back to back and that no type is written twice,
+ *   - records the chain in g_hc, which the transmit oracle compares with the frame length and the required set.
+ * (A decoder that re-reads the whole frame in the oracle exceeded time and memory limits in every formulation.) */
+#define WLIST3(X) X(setHostIdTLV, 0x01, ABS_NEVER) X(setCharacteristicsTLV, 0x02, ABS_NEVER) X(setPhysicalMediumTLV, 0x03, ABS_NEVER) \
+    X(setIPv4TLV, 0x07, ABS_NEVER) X(setIPv6TLV, 0x08, ABS_NEVER) X(setLinkSpeedTLV, 0x0C, ABS_NEVER) X(setWirelessTLV, 0x04, ABS_NOWIFI) \
+    X(setBSSIDTLV, 0x05, ABS_NOBSSID) X(setSSIDTLV, 0x06, ABS_NEVER) X(setWifiMaxRateTLV, 0x09, ABS_NEVER) X(setWifiRssiTLV, 0x0D, ABS_NEVER)
+#define WLIST2(X) X(setPerfCounterTLV, 0x0A, ABS_NEVER) X(setHostnameTLV, 0x0F, ABS_NEVER) X(setQosCharacteristicsTLV, 0x14, ABS_NEVER) \
+    X(setIconImageTLV, 0x0E, ABS_NEVER) X(setFriendlyNameTLV, 0x11, ABS_NEVER)
+#define WDECL3(name, type, abs) static size_t v_w_##name(void *b, size_t off, void *ctx);
+#define WDECL2(name, type, abs) static size_t v_w_##name(void *b, size_t off);
+WLIST3(WDECL3)
+WLIST2(WDECL2)
+static size_t v_w_setEndOfPropertyTLV(void *b, size_t off);
+
+#define setHostIdTLV v_w_setHostIdTLV
+#define setCharacteristicsTLV v_w_setCharacteristicsTLV
+#define setPhysicalMediumTLV v_w_setPhysicalMediumTLV
+#define setIPv4TLV v_w_setIPv4TLV
+#define setIPv6TLV v_w_setIPv6TLV
+#define setLinkSpeedTLV v_w_setLinkSpeedTLV
+#define setWirelessTLV v_w_setWirelessTLV
+#define setBSSIDTLV v_w_setBSSIDTLV
+#define setSSIDTLV v_w_setSSIDTLV
+#define setWifiMaxRateTLV v_w_setWifiMaxRateTLV
+#define setWifiRssiTLV v_w_setWifiRssiTLV
+#define setPerfCounterTLV v_w_setPerfCounterTLV
+#define setHostnameTLV v_w_setHostnameTLV
+#define setQosCharacteristicsTLV v_w_setQosCharacteristicsTLV
+#define setIconImageTLV v_w_setIconImageTLV
+#define setFriendlyNameTLV v_w_setFriendlyNameTLV
+#define setEndOfPropertyTLV v_w_setEndOfPropertyTLV
 #include "lltdBlock.c"
+#undef setHostIdTLV
+#undef setCharacteristicsTLV
+#undef setPhysicalMediumTLV
+#undef setIPv4TLV
+#undef setIPv6TLV
+#undef setLinkSpeedTLV
+#undef setWirelessTLV
+#undef setBSSIDTLV
+#undef setSSIDTLV
+#undef setWifiMaxRateTLV
+#undef setWifiRssiTLV
+#undef setPerfCounterTLV
+#undef setHostnameTLV
+#undef setQosCharacteristicsTLV
+#undef setIconImageTLV
+#undef setFriendlyNameTLV
+#undef setEndOfPropertyTLV
 #include "lltdWire.c"
 #include "lltdTlvOps.c"
 #include "v_nocheck_push.h"
 #include "v_state_builder.h"
 
+#define WBODY(call, type, abs) \
+    V_REQUIRE("C02.hello.contiguous: properties are laid out back to back", off == g_hc.end && !g_hc.ended); \
+    V_REQUIRE("C02.hello.no-type-twice", (g_hc.seen & V_BIT(type)) == 0); \
+    size_t r = call; \
+    if (r == 0) { \
+        V_REQUIRE("C04.writer-absent-only-when-unavailable: a property is omitted only when the platform does not provide it", abs); \
+    } else { \
+        V_REQUIRE("C02.hello.legal-length: well-formed property of legal length", TLV_WRITTEN(b, off, r, type)); \
+        v_tlv_value_check((const uint8_t *)b + off + 2, (type), ((const uint8_t *)b)[off + 1]); \
+        if (g_hc.count == 0) g_hc.first = (type); \
+        g_hc.count++; g_hc.seen |= V_BIT(type); g_hc.end = off + r; \
+    } \
+    return r;
+#define WDEF3(name, type, abs) static size_t v_w_##name(void *b, size_t off, void *ctx) { WBODY(name(b, off, ctx), type, abs) }
+#define WDEF2(name, type, abs) static size_t v_w_##name(void *b, size_t off) { WBODY(name(b, off), type, abs) }
+WLIST3(WDEF3)
+WLIST2(WDEF2)
+static size_t v_w_setEndOfPropertyTLV(void *b, size_t off) {
+    V_REQUIRE("C02.hello.end-marker-last: the end marker follows the last property", off == g_hc.end && !g_hc.ended);
+    size_t r = setEndOfPropertyTLV(b, off);
+    V_REQUIRE("C02.hello.end-marker: one zero byte", r == 1 && ((const uint8_t *)b)[off] == 0);
+    g_hc.end = off + 1; g_hc.ended = 1;
+    return r;
+}
+
 static int v_ctx_obj;
-#define V_RX_N 64              /* answerHello reads the base header and the Discover upper header only */
+#define V_RX_N 9216            /* a receive buffer of the largest MTU: the contract of answerHello requires MTU readable bytes */
 
 struct in_hello {
     struct v_cfg cfg;
@@ -52,7 +130,7 @@ void h_answer_hello(void) {
 
     V_POST("C03.exactly-one-hello: exactly one Hello (memory permitting), buffer released", C03_HELLO_LEDGER(in.tx0, h0, live0, in.allocs0));
     V_POST("C03.hello-state", C03_HELLO_STATE(&st, f, o.mapper_real, o.mapper_apparent, o.mapper_gen_topology, o.mapper_gen_quick));
-    V_POST("C03.hello-seq", st.mapper_seq == v_be16(f + 30));
+    V_POST("C03.hello-seq", st.mapper_seq == (V_ALLOC_OK(in.allocs0, 0) ? v_be16(f + 30) : o.mapper_seq));
     V_POST("C19.hello-wf", ST_SHAPE(&st) && st.see_list == o.see_list && st.small_icon == o.small_icon);
     V_CANARY("end");
 }
